@@ -974,6 +974,9 @@ func runPath(t vcore.Failer, c rulepath.Case) {
 	v, st := rulepath.Run(c, map[string]bool{"QER": true, "URR": true, "BAR": true})
 	vcore.E.Eval()
 	vcore.E.Class("through_pfcp_layer")
+	if st.Retried {
+		vcore.E.Class("rule_path:create_retried_after_a_refusal_by_the_data_plane")
+	}
 	if st.Rejected {
 		vcore.E.Exclude("message_with_a_duplicate_create_rejected_as_a_whole")
 	}
